@@ -195,6 +195,23 @@ def run(tier):
         vg += 1
         if r["rc"] == 99 or "uninitialised" in r["stderr"] or "Invalid read" in r["stderr"] or "Invalid write" in r["stderr"]:
             ck.violation("C13:memcheck:" + str(job.get("tag")), "valgrind memcheck reports an error in %s: %s" % (job.get("tag"), r["stderr"][:600]), case=r)
+    # loaded tables: "plus yytables_destroy for loaded tables" - three scanners whose table sets are concatenated in all six orders (a set
+    # that is not the first in the file is found by skipping the others), ASan build with the ledger: nothing may stay allocated
+    from . import c15
+    released = 0
+    for job, r in pmap(c15.concat_scenario, [(tb, api) for tb in (("-Cem", "-Cf") if tier == "quick" else ("-Cem", "-Cf", "-CFe", "-C")) for api in ("NR", "R")], check=ck):
+        if "worker_exception" in r:
+            ck.broken.append("tables worker failed: %s" % r["worker_exception"])
+            continue
+        if "build_error" in r:
+            ck.notes.append("loaded-tables scenario %s not built: %s" % (job, str(r["build_error"])[:200]))
+            continue
+        released += r["counts"].get("concat_scans", 0)
+        for kind, what in r["viol"]:
+            if kind in ("concat-release", "concat-crash"):
+                ck.violation("C13:loaded-tables:%s" % kind, "scanner with tables loaded from a concatenated file (%s %s): %s" % (job[0], job[1], what))
+    ck.cov["loaded_table_release_checks"] = released
+    ck.guard(released > 50, "loaded-table release hardly exercised: %d" % released)
     ck.cov.update(evaluations=tot["executions"], distinct_nontrivial=tot["nontrivial"], scenarios=ran, ledger_checks=tot["ledger_checks"],
                   allocations_tracked=tot["ledger_allocs"], valgrind_runs=vg, tokens_compared=tot["tokens"],
                   rule="the bounded-exhaustive executions of the C03/C04/C05/C07/C08/C10/C11 harnesses (inputs x read schedules x operation and "
